@@ -28,12 +28,10 @@ for entry, T in (("VP_C06_Server", T_S), ("VP_C06_Client", T_C)):
     # (two arbitrary status-code digits on the client cost ~270 s each: thorough tier only)
     heavy = [{"hole": h} for h in (9, 10, 81, 82, 83, 84)] if entry == "VP_C06_Client" else []
     I(entry, {"variant": 0, "sym": 2, "mode": 0, "seg": 1}, grid_range={"hole": [0, first + 20]}, tiers=("quick",), skip=heavy)
-    I(entry, {"variant": 0, "sym": 2, "mode": 0, "seg": 3}, grid_range={"hole": [0, L0 - 2]}, tiers=("thorough",), skip=heavy, timeout_s=3000)
+    I(entry, {"variant": 0, "sym": 2, "mode": 0, "seg": 1}, grid_range={"hole": [first + 21, L0 - 2]}, tiers=("thorough",), skip=heavy, timeout_s=1500)
     if heavy:
-        I(entry, {"variant": 0, "sym": 2, "mode": 0, "seg": 1}, grid={"hole": [h["hole"] for h in heavy]}, tiers=("thorough",), timeout_s=3000)
-    I(entry, {"variant": 1, "sym": 2, "mode": 0, "seg": 1}, grid_range={"hole": [0, len(T[1]) - 2]}, tiers=("thorough",), timeout_s=3000)
-    I(entry, {"variant": 0, "sym": 2, "mode": 1, "seg": 1}, grid_range={"hole": [0, L0]}, tiers=("thorough",), timeout_s=3000)
-    I(entry, {"variant": 0, "sym": 3, "mode": 0, "seg": 1}, grid_range={"hole": [0, 7]}, tiers=("thorough",), timeout_s=3000)
+        I(entry, {"variant": 0, "sym": 2, "mode": 0, "seg": 1}, grid={"hole": [h["hole"] for h in heavy]}, tiers=("thorough",), timeout_s=1500)
+    I(entry, {"variant": 0, "sym": 3, "mode": 0, "seg": 1}, grid_range={"hole": [0, 7]}, tiers=("thorough",), timeout_s=1500)
     # every truncation of every variant, delivered byte by byte
     for v in range(4):
         I(entry, {"variant": v, "sym": 0, "mode": 0, "seg": 2}, grid_range={"trunc": [1, len(T[v]) + 1]})
